@@ -30,7 +30,8 @@ def eval_script(P, sid, lines, impl, model):
     mm = None
     if model is not None:
         proj = getattr(P, 'project', lambda x: x)
-        a, b = proj(iout), proj(model.get(sid, ['<no output>']))
+        pp = getattr(P, 'project_pair', None)
+        a, b = pp(iout, model.get(sid, ['<no output>'])) if pp else (proj(iout), proj(model.get(sid, ['<no output>'])))
         d = first_diff(a, b)
         if d is not None:
             mm = {'at': d, 'impl': a[max(0, d - 3):d + 3], 'model': b[max(0, d - 3):d + 3]}
@@ -138,6 +139,8 @@ def main():
     rep.cov['exhaustive'] = bool(getattr(P, 'EXHAUSTIVE', {}).get(a.tier))
     rep.cov['traces_validated_against_impl'] = len(scripts)
     rep.cov['correspondence_mismatches'] = len(mismatches)
+    if model is not None:
+        rep.cov['scripts_leaving_the_model_scope'] = sum(1 for sid, _ in scripts if any(o.startswith('UNMODELLED') for o in model.get(sid, [])))
     for k in known:
         # known findings are replayed by a dedicated stream so that they are printed even when the
         # main stream avoids their trigger
